@@ -182,6 +182,19 @@ def main():
             styles = ['compact']          # a separator with spaces cannot be told from padding
         for st in styles:
             cases.extend(tree_cases(rng, trees, sep, st, 'trees-%s-%s' % (fam, st)))
+    # long utterances (dozens of words, a hundred phones and more in ONE line): every separator occurrence and every run
+    # of padding spaces of the line must be handled, not only the first few dozen
+    for k in range(24 if ck.thorough else 6):
+        sep = [SEPS[0], ('_', ';esyll', ';eword'), (' ', None, ';eword')][k % 3] if k < 3 else SEPS[k % len(SEPS)]
+        tree = sl.rand_tree(rng, sl.PHONES[['ascii', 'ipa', 'multi'][k % 3]], nwords=rng.randint(16, 28))
+        if not sl.tree_ok(tree, sep):
+            continue
+        styles = ['compact', 'padded'] + (['fullpad'] if sep[0] not in (None, ' ') else [])
+        if any(x and ' ' in x and x != ' ' for x in sep[:2]) or sep[1] == ' ':
+            styles = ['compact']
+        short = sl.rand_tree(rng, sl.PHONES['ascii'])
+        for st in styles:
+            cases.extend(tree_cases(rng, [short, tree, short] if sl.tree_ok(short, sep) else [tree], sep, st, 'long-utterance-%s' % st))
     # outside the quantifier (correspondence only): undefined phone/word level, syllable level without syllables
     for k in range(200 if ck.thorough else 30):
         sep = rng.choice([(None, ';esyll', ';eword'), (' ', ';esyll', None), (None, None, ';eword'), (' ', None, ';eword')])
@@ -197,7 +210,7 @@ def main():
     finish_proof_failures(ck, failures + problems)
     return ck.finish(
         rule='%d draws of 1-5 random word/syllable/phone trees x %d separator triples (syllable optionally undefined, phone separator space or not, multi-character and non-ASCII, word separator with an inner space) '
-             'x compact/padded tagging x interleaved blank lines and trailing newlines, through prepare(phone), prepare(syllable) and gold; oracle: the three views recomputed from the trees. '
+             'x compact/padded tagging x interleaved blank lines and trailing newlines, plus utterances of 16-28 words (more than a hundred phones in one line), through prepare(phone), prepare(syllable) and gold; oracle: the three views recomputed from the trees. '
              'Every case is non-trivial (distinct tree/separator/view).' % (n, len(SEPS)),
         assumptions=['the word separator has no leading/trailing whitespace (prepare strips each line before checking its end)'])
 
